@@ -159,7 +159,7 @@ def run_job(job):
         return [script(n) for n in scripts], finish
 
     ex = IlvExplorer(make_execution, job["bound"], max_executions=job.get("max_executions", 60000),
-                     time_cap=job.get("time_cap", 600), shard=tuple(job["shard"]) if job.get("shard") else None).run()
+                     time_cap=job.get("time_cap", 300), shard=tuple(job["shard"]) if job.get("shard") else None).run()
     cleanup_dir()
     s = ex.summary()
     viols, seen = [], set()
